@@ -19,7 +19,12 @@ _plt = None
 
 
 def clear_memo():
-    """Clears the two process-wide start-time memos through the library's own cache_clear."""
+    """Clears the process-wide start-time memo through the library's own invalidation entry point (or, on trees
+    that do not have one, through cache_clear of the two memoised methods)."""
+    f = getattr(_ico, 'clear_start_time_cache', None)
+    if callable(f):
+        f()
+        return
     for cls in (_ico.RelationLink, _ico.MultiRelationLink):
         f = cls.__dict__.get('get_start_time')
         if hasattr(f, 'cache_clear'):
